@@ -13,6 +13,7 @@ import sys
 import time
 import traceback
 from concurrent.futures import ThreadPoolExecutor
+import threading
 
 HERE = os.path.dirname(os.path.abspath(__file__))
 sys.path.insert(0, HERE)
@@ -29,10 +30,13 @@ NCPU = min(16, os.cpu_count() or 4)
 REALISTIC = ("18015.3", "1000000")       # W is water (18.0153 g/mol, 1 g/mL), volumes of ~0.1 L
 DECIMAL = ("2000", "20000")              # 2 mL and 20 mmol per model unit (W: 100 g/mol): lattice values with 2^k denominators are
                                          # short decimals and stay in the range where the library's 1e-10 rounding is effective
-SMALL = ("2000", "50000")                # 2 mL / 50 mmol per unit
+BIG = ("1801530", "100000000")           # 1.8 L / 100 mol per unit: stays far above the rounding quantum of every storage configuration
 
 
 DEC_OVR = {"Fracs": "HalfFracs", "DenBound": "64"}     # decimal-exact legs: halves only, denominators <= 64
+
+
+SEM = threading.BoundedSemaphore(NCPU)    # at most one worker process per core, whatever the number of legs in flight
 
 
 class Machinery(Exception):
@@ -87,7 +91,8 @@ def run_workers(cmds, parallel=NCPU):
         env = dict(os.environ)
         env.update({"PYTHONHASHSEED": "0", "PYTHONDONTWRITEBYTECODE": "1"})
         env.update(env_extra or {})
-        p = subprocess.run(argv, cwd=SCRATCH, env=env, stdout=subprocess.PIPE, stderr=subprocess.STDOUT, text=True)
+        with SEM:
+            p = subprocess.run(argv, cwd=SCRATCH, env=env, stdout=subprocess.PIPE, stderr=subprocess.STDOUT, text=True)
         if p.returncode != 0 or not os.path.exists(out):
             raise Machinery(f"worker failed ({p.returncode}): {' '.join(argv[-9:])}\n{p.stdout[-3000:]}")
         with open(out) as fh:
@@ -216,6 +221,23 @@ def plan(prop, tier, seed):
         if not q:
             legs.append(lambda: recipe_leg("RecipeProg", 3, 16, DECIMAL, seed, tag="dec"))
             legs.append(lambda: recipe_leg("RecipeCore", 9, 16, REALISTIC, seed, sim=(40, 9, seed * 100 + 1), tag="sim"))
+    if prop == "C18":
+        import configs
+        names = ["mL_mmol", "L_mol", "nL_nmol", "L_mol_dens2", "mL_umol_p8"] if q else \
+            [f"{v}_{m}" for v in ("uL", "mL", "L", "nL") for m in ("umol", "mmol", "mol", "nmol") if (v, m) != ("uL", "umol")] + \
+            ["mL_umol_p8", "uL_mmol_p12", "dens2", "L_mol_dens2"]
+        for cn in names:
+            def mk(cn=cn):
+                env = {"PYPLATE_CONFIG": configs.make(cn)}
+                out = [lab_leg("LabCF", 1 if q else 2, 1 if q else 8, BIG, seed, env_extra=env, tag=cn),
+                       lab_leg("LabPL", 1, 2 if q else 4, BIG, seed, env_extra=env, tag=cn),
+                       lab_leg("LabSOL", 1, 2 if q else 4, BIG, seed, env_extra=env, tag=cn),
+                       recipe_leg("RecipeProg", 2 if q else 3, 1 if q else 8, BIG, seed, env_extra=env, tag=cn),
+                       units_leg(BIG, seed, env_extra=env, tag=cn)]
+                for leg in out:
+                    leg["config"] = cn
+                return out
+            legs.append(mk)
     if prop in ("C06", "C14", "C19"):
         legs.append(lambda: units_leg(REALISTIC, seed))
         if not q:
@@ -236,6 +258,8 @@ def load_findings():
 
 
 def matches(finding, prop, key):
+    if prop == "C18" and "orig_property" in key:     # a recorded defect shows under every configuration alike
+        prop = key["orig_property"]
     if finding["property"] != prop:
         return False
     for k, want in finding["match"].items():
@@ -260,7 +284,10 @@ def main(argv):
     seed = int(os.environ.get("VERIF_SEED", "0"))
     t0 = time.time()
     try:
-        legs = [thunk() for thunk in plan(prop, tier, seed)]
+        legs = []
+        with ThreadPoolExecutor(max_workers=6) as ex:          # legs run side by side; SEM bounds the worker processes
+            for r in ex.map(lambda th: th(), plan(prop, tier, seed)):
+                legs.extend(r if isinstance(r, list) else [r])
         if not legs:
             raise Machinery(f"no legs defined for {prop}")
     except (Machinery, tlcrun.TLCError, subprocess.SubprocessError) as e:
@@ -278,6 +305,15 @@ def conclude(prop, tier, seed, legs, wall):
         summ = dict(leg["params"])
         summ.update(states=0, transitions=0, executed=0, evaluated=0, skipped_behind_divergence=0, from_cache=leg.get("from_cache"))
         for sh in leg["shards"]:
+            if prop == "C18":       # conformance to the one specification under every configuration IS independence
+                cn = leg.get("config", leg["params"].get("tag"))
+                for vc in sh["violation_counts"]:
+                    vc["class_key"] = dict(vc["class_key"], config=cn, orig_property=vc["property"])
+                    vc["property"] = "C18"
+                for v in sh["violations"]:
+                    v["class_key"] = dict(v["class_key"], config=cn, orig_property=v["property"])
+                    v["property"] = "C18"
+                sh["evaluated"] = {"C18": sum(sh["evaluated"].values())}
             summ["states"] += sh.get("distinct_states", 0)
             summ["transitions"] += sh["tlc"]["generated"] if "tlc" in sh else sh.get("transitions", 0)
             summ["executed"] += sh["counts"].get("executed", 0) if leg["params"]["kind"] in ("lab", "recipe") else sh["evaluated"].get(prop, 0)
